@@ -22,6 +22,7 @@ macro_rules! harness_list {
         $m!(c04_atomic_ack_n7_k0, 18, scen::c04_atomic_ack::<8, 0>);
         $m!(c04_atomic_ack_n7_k2, 18, scen::c04_atomic_ack::<8, 2>);
         $m!(c04_atomic_ack_n4_rd, 18, scen::c04_atomic_ack::<5, 1>);
+        $m!(c04_atomic_ack_n4_k2, 18, scen::c04_atomic_ack::<5, 2>);
         $m!(c05_fault_n3_k0, 18, scen::c05_fault::<4, 0>);
         $m!(c05_fault_n3_k1, 18, scen::c05_fault::<4, 1>);
         $m!(c05_fault_n3_k2, 18, scen::c05_fault::<4, 2>);
@@ -38,6 +39,7 @@ macro_rules! harness_list {
         $m!(c10_prev_n7, 18, scen::c10_prev_8);
         $m!(c11_none_n7, 18, scen::c11_none_8);
         $m!(c11_prev_n7, 18, scen::c11_prev_8);
+        $m!(c11_interleaved_n2, 18, scen::c11_interleaved::<4>);
         $m!(c11_interleaved_n4, 18, scen::c11_interleaved::<6>);
         $m!(c12_wiring_n2, 18, scen::c12_wiring::<3>);
         $m!(c18_frame_n7_k0, 18, scen::c18_frame::<8, 0>);
